@@ -142,7 +142,7 @@ def record_runtime(m, args, S):
     seen = {}
 
     class Rec(ArchSpecInterpreter):
-        keys = ["spec.interp", "main"]
+        keys = list(ArchSpecInterpreter.keys)
 
         def eval_stmt(self, frame, stmt):
             r = super().eval_stmt(frame, stmt)
